@@ -597,6 +597,11 @@ pub fn gen_version_model(c: &mut Choice, max_needs: usize, max_aux: usize, max_d
             format!("{}{}", W[c.idx(W.len())], if c.bool() { String::new() } else { format!(".{}", c.below(50)) })
         }
     };
+    // one model in 16 lists the reserved indexes: an auxiliary record numbered 0 or 1, a definition numbered 0
+    // ("local 0 / global 1 when unlisted" in the statement implies they can be listed; matching is by index alone)
+    let lists_reserved = c.u8() >= 240;
+    let mut reserved_aux: Option<u16> = if lists_reserved && c.bool() { Some(c.below(2) as u16) } else { None };
+    let mut reserved_def: Option<u16> = if lists_reserved { Some(0) } else { None };
     let nn = match c.below(4) {
         0 => 0,
         1 => 1 + c.below(2) as usize,
@@ -611,7 +616,14 @@ pub fn gen_version_model(c: &mut Choice, max_needs: usize, max_aux: usize, max_d
         let mut auxes = vec![];
         for _ in 0..na {
             let name = word(c, "VER_");
-            auxes.push(VAux { hash: if c.bool() { elf_hash(name.as_bytes()) } else { c.field(32) as u32 }, name, flags: c.field(16) as u16, other: fresh(c, &mut used, 2) });
+            let other = match reserved_aux.take() {
+                Some(r) if !used.contains(&r) => {
+                    used.push(r);
+                    r
+                }
+                _ => fresh(c, &mut used, 2),
+            };
+            auxes.push(VAux { hash: if c.bool() { elf_hash(name.as_bytes()) } else { c.field(32) as u32 }, name, flags: c.field(16) as u16, other });
         }
         m.needs.push(VNeed { file: word(c, "lib"), auxes });
     }
@@ -623,7 +635,14 @@ pub fn gen_version_model(c: &mut Choice, max_needs: usize, max_aux: usize, max_d
     for _ in 0..nd {
         let nnames = 1 + c.below(5) as usize;
         let names: Vec<String> = (0..nnames).map(|_| word(c, "DEF_")).collect();
-        m.defs.push(VDef { ndx: fresh(c, &mut used, 1), flags: c.field(16) as u16, hash: if c.bool() { elf_hash(names[0].as_bytes()) } else { c.field(32) as u32 }, names });
+        let ndx = match reserved_def.take() {
+            Some(r) if !used.contains(&r) => {
+                used.push(r);
+                r
+            }
+            _ => fresh(c, &mut used, 1),
+        };
+        m.defs.push(VDef { ndx, flags: c.field(16) as u16, hash: if c.bool() { elf_hash(names[0].as_bytes()) } else { c.field(32) as u32 }, names });
     }
     let ns = c.below(nsyms_max as u64 + 1) as usize;
     for _ in 0..ns {
